@@ -118,6 +118,8 @@ type Spec struct {
 	// event / final-state rules); it returns a diagnosis or "".
 	Extra func(p *Path, out string, class string, e *Env, ab func(string) string) string
 	// MinPaths guards against vacuity.
+	// WritesOverride: see Config.WritesOverride.
+	WritesOverride map[string][]int
 	// Ignore: atoms with one of these prefixes are bookkeeping conditions
 	// (loop counters of symbolic loops, infallible entropy reads) that the
 	// specification does not constrain.
@@ -162,6 +164,9 @@ func Check(rule *report.Rule, cfg *Config, sp *Spec) *Result {
 		c.MaxVisits = sp.MaxVisits
 	}
 	c.SymLoops = sp.SymLoops
+	if sp.WritesOverride != nil {
+		c.WritesOverride = sp.WritesOverride
+	}
 	if len(sp.InlinePkgs) > 0 {
 		pk := map[string]bool{}
 		for _, r := range sp.InlinePkgs {
